@@ -37,6 +37,16 @@ Theorem C08_metric_payload : forall id t0 t1 count ms,
 Proof. exact metric_payload_valid. Qed.
 Print Assumptions C08_metric_payload.
 
+(* The same for every table state that insertions can reach: mt.count is kept equal to the number of
+   keys, so the trailing-comma decision and the loop over the map cannot disagree. *)
+Theorem C08_metric_payload_reachable : forall ops id t0 t1 ms,
+  JsonNumber t0 -> JsonNumber t1 -> Forall entry_ok ms ->
+  map (fun m => (m_name m, m_scope m)) ms = mt_keys (mt_run ops) ->
+  exists body, metric_payload id t0 t1 (mt_count (mt_run ops)) ms = Some body /\
+               JsonT (metric_tree id t0 t1 ms) body /\ HasShape shape_metric body.
+Proof. exact metric_payload_reachable. Qed.
+Print Assumptions C08_metric_payload_reachable.
+
 (* A NaN or infinite field anywhere makes the metric encoder return an error, never bytes. *)
 Theorem C08_nonfinite_fails : forall id t0 t1 count ms,
   Exists (fun m => In FBad (m_data m)) ms -> metric_payload id t0 t1 count ms = None.
